@@ -93,7 +93,7 @@ def generate(seed, tier, cfg):
     k, o, f = st.knobs, st.ops, st.faults
     if cfg == "fixture":
         return {"mode": "fixture", "pick": k.randrange(0, 1000), "disturb": {"dup": [o.randrange(0, 10**6) for _ in range(k.choice((0, 1, 3)))], "blank": [o.randrange(0, 10**6) for _ in range(k.choice((0, 1, 2)))]}, "knobs": {"chunk": k.choice((0, 7, 64))}, "ops": [], "faults": []}
-    asc = gen.gen_score(st.workload, profile="match")
+    asc = gen.gen_score(st.workload, profile="match", size=gen.pick_size(tier, st.knobs))
     # the format stores no measure lengths: what follows the last score note cannot be known, so the
     # final measure must hold a pitched note that ends with it (precondition "complete final measure")
     ap = asc["parts"][0]
